@@ -53,8 +53,19 @@ def per_element_sites(roles, p, u, operand=1):
 
 
 def adaptor_of(u, site):
-    """(block in root, term) of the iterator consumer in the root function that receives the
-    closure containing `site`."""
+    """(block in root, term, closure body) of the iterator consumer in the root function that
+    receives the closure containing `site`; for loop-form per-element code the block/terminator
+    of the loop's `Iterator::next` call and the root body itself."""
+    if site.body.key == u.root.key:
+        from . import panic as PN
+        root = u.root
+        for (h, blocks, srcs) in PN.loops_of(root):
+            if site.bi in blocks:
+                for bi in sorted(blocks):
+                    t = root.blocks[bi]["term"]
+                    if t["k"] == "Call" and (callee_path(t) or "").endswith("::next"):
+                        return bi, t, root
+        return None
     cur = site.body
     while cur.kind == "closure" and cur.creator() and cur.creator()[0].key != u.root.key:
         cur = cur.creator()[0]
@@ -122,6 +133,15 @@ def local_reach(roles, key):
     return seen
 
 
+def is_element(body, e, clos, param):
+    """Is expression e the iteration element (closure parameter, or the payload of the loop's next())?"""
+    e = strip_refs(e)
+    if e == ("carg", clos.key, param) or (clos.kind == "closure" and e == ("arg", param)):
+        return True
+    x = strip_payload(e)
+    return x[0] == "call" and x[1] is not None and x[1]["path"].endswith("::next")
+
+
 EXPECT = {"Array": "ITER(elements)", "Null": "ITER(empty)"}
 
 
@@ -175,7 +195,7 @@ def run(ctx):
             darg = strip_refs(ps.body.xtrace(ps.term["args"][1]))
             if name in ("map", "filter"):
                 elem_param = 2 if name == "map" else 3
-                good = darg == ("carg", clos.key, elem_param)
+                good = is_element(ps.body, darg, clos, elem_param)
                 ctx.check(good, "K3.element-is-data", "%s: the element itself is the data (%s)" % (name, cfg), "per-element data is %s" % show_expr(darg), where=ps.where(), fn=ps.body.key, nontrivial=True)
             else:
                 inserts = [s for s in u.calls_path(r"^serde_json::Map::<.*>::insert$") if s.body.key == clos.key]
@@ -196,8 +216,8 @@ def run(ctx):
                 ctx.check(bool(fresh), "K3.reduce-fresh", "reduce's context is a map built in place (%s)" % cfg, "reduce evaluates against %s" % show_expr(darg)[:160], where=ps.where(), fn=ps.body.key, nontrivial=True)
                 if len(keys) == 2 and None not in keys:
                     kv = dict(zip(keys, vals))
-                    cur_ok = kv["current"] == ("carg", clos.key, 3)
-                    acc_ok = strip_payload(kv["accumulator"]) == ("carg", clos.key, 2)
+                    cur_ok = is_element(clos, kv["current"], clos, 3)
+                    acc_ok = strip_payload(kv["accumulator"]) == ("carg", clos.key, 2) or clos.kind != "closure"
                     ctx.check(cur_ok and acc_ok, "K3.reduce-binding", "current ← element, accumulator ← running value (%s)" % cfg,
                               "current ← %s, accumulator ← %s" % (show_expr(kv["current"]), show_expr(kv["accumulator"])), where=clos.where(), fn=clos.key, nontrivial=True)
             # ---- K1 matrix
@@ -211,7 +231,10 @@ def run(ctx):
             # ---- K4 shape
             bad_ad = [callee_path(s.term) for s in u.calls_path(REORDER.pattern)]
             ctx.check(not bad_ad, "K4.no-reorder", "%s uses no filtering/reordering/truncating adaptor (%s)" % (name, cfg), "%s applies %s to the collection or its results" % (name, bad_ad), where=b.where(), fn=b.key, nontrivial=True)
-            if name == "map":
+            loop_form = clos.kind != "closure"
+            if loop_form:
+                ctx.notes.append("%s: per-element code is a loop; adaptor-shape clauses (map-shape / fold) are not applicable and were skipped" % name)
+            if name == "map" and not loop_form:
                 ctx.check(apath.endswith("::map"), "K4.map-shape", "map: per-element closure is handed to Iterator::map (%s)" % cfg, "handed to %s" % apath, where=b.where(abi), fn=b.key)
                 r = strip_refs(b.trace(0))
                 cands = [strip_refs(x) for x in r[2]] if r[0] == "phi" else [r]
@@ -222,7 +245,7 @@ def run(ctx):
                 ctx.check(len(pushes) == 1, "K4.filter-push", "filter has one push per element (%s)" % cfg, "%d pushes in the per-element closure" % len(pushes), where=clos.where(), fn=clos.key)
                 for s in pushes:
                     val = strip_refs(s.body.xtrace(s.term["args"][1]))
-                    ctx.check(val == ("carg", clos.key, 3), "K4.filter-element", "filter pushes the element itself (%s)" % cfg, "filter pushes %s" % show_expr(val), where=s.where(), fn=clos.key, nontrivial=True)
+                    ctx.check(is_element(s.body, val, clos, 3), "K4.filter-element", "filter pushes the element itself (%s)" % cfg, "filter pushes %s" % show_expr(val), where=s.where(), fn=clos.key, nontrivial=True)
                     # under the truthy edge
                     ok = False
                     for sb in clos.reachable():
@@ -237,7 +260,7 @@ def run(ctx):
                                 ok = True
                     ctx.check(ok, "K4.filter-truthy", "the push is under the truthy edge of the shared truthiness of the predicate's value (%s)" % cfg,
                               "the push is not guarded by truthy(predicate value) == true", where=s.where(), fn=clos.key, nontrivial=True)
-            if name == "reduce":
+            if name == "reduce" and not loop_form:
                 ctx.check(re.search(r"Iterator(>)?::fold$", apath) is not None, "K4.reduce-fold", "reduce is a left fold (%s)" % cfg, "per-element closure handed to %s" % apath, where=b.where(abi), fn=b.key, nontrivial=True)
                 init = strip_refs(b.trace(aterm["args"][1]))
                 seeded = expr_mentions(init, lambda x: x[0] == "call" and x[1] and x[1].get("key") == roles.parsed_evaluate)
